@@ -170,9 +170,15 @@ def confirm(meta, name, res, env, label, oname, V, cov):
     c = meta.cols
     stack = [env.get(f"c{c['STACK']+i}", 0) for i in range(16)] + [env.get(f"ov{K-1-j}", 0) for j in range(K)]
     src = f"begin {name} end"
-    nat = masmsym.native([{"kind": "exec_masm", "source": src, "stack": [str(x) for x in stack], "max_cycles": 100000}], "c05i")[0]
+    # hint values of the model (adversarial host): handed to the native run through the scripted host
+    hints = []
+    for e in res.events:
+        if e[0] == "host" and not isinstance(e[2], list):
+            l = e[2].l
+            hints.append(l.const if l.is_const() else env.get(next(iter(l.terms)), 0))
+    nat = masmsym.native([{"kind": "exec_masm", "source": src, "stack": [str(x) for x in stack], "max_cycles": 100000, "hints": [str(h) for h in hints]}], "c05i")[0]
     ref = reference_concrete(name, stack)
-    rep = dict(kind="exec_masm", property=PROP, source=src, stack=[str(x) for x in stack], native=nat, reference=[str(x) for x in ref], label=label)
+    rep = dict(kind="exec_masm", property=PROP, source=src, stack=[str(x) for x in stack], hints=[str(h) for h in hints], native=nat, reference=[str(x) for x in ref], label=label)
     path = save_replay(PROP, "instr_" + re.sub(r"[^A-Za-z0-9_]", "_", name), rep)
     cov["native_validated"] += 1
     bad = False
@@ -181,10 +187,24 @@ def confirm(meta, name, res, env, label, oname, V, cov):
     elif ref[0] == "fail":
         bad = nat["status"] == "ok"
     if bad:
-        V.violation(oname, path, f"`{src}` on stack {stack[:4]}..: native {nat.get('stack', nat.get('error'))!s:.120} but the reference gives {ref!s:.120}",
+        V.violation(oname, path, f"`{src}` on stack {stack[:4]}..{' with hint(s) ' + str(hints) if hints else ''}: native {nat.get('stack', nat.get('error'))!s:.120} but the reference gives {ref!s:.120}",
                     key=f"instr:{name}")
     else:
         V.add(oname, "inconclusive", detail=f"solver counterexample did not reproduce natively (stack {stack[:4]})")
+
+
+def confirm_honest(meta, name, env, oname, V, cov):
+    """the instruction run natively with the real (honest) default host on the model's operand"""
+    c = meta.cols
+    stack = [env.get(f"c{c['STACK']+i}", 0) for i in range(16)] + [env.get(f"ov{K-1-j}", 0) for j in range(K)]
+    src = f"begin {name} end"
+    nat = masmsym.native([{"kind": "exec_masm", "source": src, "stack": [str(x) for x in stack], "max_cycles": 100000}], "c09h")[0]
+    path = save_replay(PROP, "honest_" + re.sub(r"[^A-Za-z0-9_]", "_", name), dict(kind="exec_masm", source=src, stack=[str(x) for x in stack], native=nat))
+    cov["native_validated"] += 1
+    if nat["status"] != "ok":
+        V.violation(oname, path, f"`{src}` on operand {stack[0]} fails with the honest host: {nat.get('error')!s:.120}", key=f"honest:{name}")
+    else:
+        V.add(oname, "inconclusive", detail=f"solver counterexample (operand {stack[0]}) completes natively with the honest host")
 
 
 _W = {}
